@@ -339,15 +339,22 @@ def eval_terms(name, imports, terms, shard=200, timeout=600):
             f.write("Set Printing Width 100000000.\nSet Printing Depth 100000000.\n")
             f.write("Definition terms : list V := [\n" + ";\n".join(" " + t for t in ts) + "].\n")
             f.write("Eval vm_compute in (map flat terms).\n")
+        # the output can exceed a pipe buffer: write it to a file
         procs.append((k, path, subprocess.Popen(
-            ["bash", "-c", f"ulimit -s unlimited 2>/dev/null; exec timeout {timeout} coqc -Q . Verif -w -notation-overridden {path}"],
-            cwd=COQ, text=True, stdout=subprocess.PIPE, stderr=subprocess.STDOUT)))
+            ["bash", "-c", f"ulimit -s unlimited 2>/dev/null; exec timeout {timeout} coqc -Q . Verif -w -notation-overridden {path} > {path}.out 2>&1"],
+            cwd=COQ)))
         if len(procs) % 12 == 0:
             for _, _, p in procs[-12:]:
                 p.wait()
     out, logs = [], []
     for k, path, p in procs:
-        text, _ = p.communicate()
+        p.wait()
+        try:
+            with open(path + ".out") as f:
+                text = f.read()
+            os.remove(path + ".out")
+        except FileNotFoundError:
+            text = ""
         m = re.search(r"=\s*(\[.*\])\s*:\s*list \(list Z\)", text, re.S)
         if p.returncode != 0 or not m:
             logs.append(f"shard {k}: coqc failed\n{text[-1500:]}")
